@@ -305,4 +305,9 @@ print(json.dumps(out))
 
 
 def replay(ctx, path):
+    with open(path) as f:
+        body = json.load(f)
+    if body.get('shape', {}).get('stream') == 'unpacked_tuple':
+        print(json.dumps(unpacked_tuple_probe()))     # no 'differing' entries when the property holds
+        return
     c01.replay(ctx, path)
